@@ -90,6 +90,31 @@ static pthread_key_t done_key;
 int mt_me(void) { return me_; }
 void mt_activity(void) { activity++; }
 
+/* ---- explicit schedules (systematic exploration): `cfg sched=a.b.c` gives the choice taken at the 1st, 2nd, ... choice point that
+ * has more than one option; once the list is used up every choice is option 0 (= keep running the current thread when that is
+ * possible, else the runnable thread with the lowest id: the non-preemptive default). With IVY_SCHED_TRACE=<file> every such choice
+ * point is recorded as "<options> <taken> <kind>" (kind p = the current thread could have continued, b = it could not, s = which
+ * thread receives a process-directed signal), which is what vlib/sched.py needs to enumerate the alternatives. */
+static int sched_mode, sched_len, sched_pos;
+static unsigned char sched_choice[4096];
+static FILE *sched_trace;
+
+static unsigned long long rnd(void);
+static int choose(int n, char kind)
+{
+	int c = 0;
+	if (n <= 1)
+		return 0;
+	if (sched_pos < sched_len)
+		c = sched_choice[sched_pos] % n;
+	sched_pos++;
+	if (sched_trace != NULL) {
+		fprintf(sched_trace, "%d %d %c\n", n, c, kind);
+		fflush(sched_trace);
+	}
+	return c;
+}
+
 static unsigned long long rnd(void)
 {
 	rng_state ^= rng_state << 13;
@@ -227,6 +252,17 @@ static int pick_next(int must_switch)
 			if (VT[me_].state == ST_WAIT)
 				return me_;
 		}
+	}
+	if (sched_mode) {
+		/* option 0 = stay (when allowed), then the other candidates by thread id */
+		int opt[MT_MAXT + 1], k = 0, i;
+		int can_stay = !must_switch && VT[me_].state == ST_RUNNABLE;
+		if (can_stay)
+			opt[k++] = me_;
+		for (i = 0; i < n; i++)
+			if (!(can_stay && cand[i] == me_))
+				opt[k++] = cand[i];
+		return opt[choose(k, can_stay ? 'p' : 'b')];
 	}
 	if (!must_switch && VT[me_].state == ST_RUNNABLE && (int)(rnd() % 100) < stay_pct)
 		return me_;
@@ -513,7 +549,7 @@ void mt_send_signal(int signum, int t)
 		}
 		if (n == 0)
 			return;
-		t = cand[rnd() % n];
+		t = sched_mode ? cand[choose(n, 's')] : cand[rnd() % n];
 	}
 	VT[t].pending_sig[signum] = 1;
 	printf("T%d SIGNAL-SENT %d to=T%d\n", me_, signum, t);
@@ -1123,6 +1159,17 @@ int main(int argc, char **argv)
 				else if (!strcmp(c, "noeventfd")) cfg_noeventfd = ok = 1;
 				else if (!strncmp(c, "seed=", 5)) { rng_state = 88172645463325252ULL ^ (strtoull(c + 5, NULL, 10) * 2654435761ULL); if (!rng_state) rng_state = 1; ok = 1; }
 				else if (!strncmp(c, "stay=", 5)) { stay_pct = atoi(c + 5); ok = 1; }
+				else if (!strncmp(c, "sched=", 6)) {
+					const char *q = c + 6;
+					sched_mode = 1; sched_len = 0;
+					while (*q && sched_len < (int)sizeof(sched_choice)) {
+						if (*q >= '0' && *q <= '9') { sched_choice[sched_len++] = (unsigned char)strtol(q, (char **)&q, 10); }
+						else q++;
+					}
+					if (getenv("IVY_SCHED_TRACE") != NULL && sched_trace == NULL)
+						sched_trace = fopen(getenv("IVY_SCHED_TRACE"), "w");
+					ok = 1;
+				}
 				else if (!strncmp(c, "waitlimit=", 10)) { wait_limit = atoi(c + 10); ok = 1; }
 				else if (!strncmp(c, "cblimit=", 8)) { cb_limit = atoi(c + 8); ok = 1; }
 				else if (!strncmp(c, "steplimit=", 10)) { step_limit = atoi(c + 10); ok = 1; }
